@@ -13,6 +13,9 @@ from vk.tt import b_and, b_or, b_not, b_implies, lex_le, lex_lt, t_eq, fmt
 SENT = object()
 
 
+NONE_EVENT = '<event with value None>'
+
+
 class Demand:
     __slots__ = ('tau', 'causes')
 
@@ -282,6 +285,8 @@ class Ref:
         exp, skip = self.expected_inputs(s, tau)
         exp_main, _ = self.expected_inputs(s, tau, main_only=True)
         got = {}
+        ev_slots = {(c.de, c.da, f"{c.ss}.{c.se}") for c in self.conns if c.ds == sid and not c.persistent} - \
+                   {(c.de, c.da, f"{c.ss}.{c.se}") for c in self.conns if c.ds == sid and c.persistent}
         for eid, attrs in inputs.items():
             for attr, srcs in attrs.items():
                 for src, v in srcs.items():
@@ -289,6 +294,8 @@ class Ref:
                         continue
                     if v is not None:
                         got[(eid, attr, src)] = v
+                    elif (eid, attr, src) in ev_slots:
+                        got[(eid, attr, src)] = NONE_EVENT
         self.counts['C03'] += 1
         self.evals['C03'] = self.evals.get('C03', 0) + 1
         if exp != got:
@@ -380,7 +387,10 @@ class Ref:
                 continue
             if c.se in data and c.sa in data[c.se]:
                 self.seq += 1
-                c.produced.append((tout, data[c.se][c.sa], self.seq, st))
+                v = data[c.se][c.sa]
+                if v is None and not c.persistent:
+                    v = NONE_EVENT      # an event whose value is None is still an event (for persistent outputs None means "no value")
+                c.produced.append((tout, v, self.seq, st))
                 if c.trigger:
                     due = self.shift(c, tout)
                     if bool(due[0] < self.until):
